@@ -81,6 +81,20 @@ def extract(repo):
     if not re.search(r"tracker\.height\(\)\.saturating_sub\(stub\.blockheight\)\s*>\s*stub_prune_time", no):
         raise ExtractError("prune_channels: stub age comparison changed")
 
+    # find_or_create_channel: high-water-mark guard, then the capacity guard, then the slot lookup (this order)
+    po = strip_comments(read(repo, "vls-core/src/policy/mod.rs"))
+    max_channels_default = int_expr(const_value(po, "MAX_CHANNELS"))
+    if not re.search(r"fn max_channels\(&self\) -> usize \{\s*MAX_CHANNELS\s*\}", po):
+        raise ExtractError("Policy::max_channels: default is no longer MAX_CHANNELS")
+    cbody = body_after(no, r"fn find_or_create_channel\(")
+    i_hwm = cbody.find("if self.get_state().dbid_high_water_mark >= dbid {")
+    i_cap = cbody.find("if channels.len() >= policy.max_channels() {")
+    i_get = cbody.find("let maybe_slot = channels.get(&channel_id);")
+    if not (0 <= i_hwm < i_cap < i_get):
+        raise ExtractError("find_or_create_channel: high-water-mark guard / capacity guard / slot lookup changed shape or order")
+    if not re.search(r"self\.find_or_create_channel\(channel_id, arc_self, Some\(dbid\)\)", body_after(no, r"pub fn new_channel\(")):
+        raise ExtractError("new_channel no longer passes its dbid to the monotonicity guard")
+
     # does forget_channel persist the tracker entry (which carries the monitor's forget flag)?
     fbody = body_after(no, r"pub fn forget_channel\(")
     forget_persists_tracker = "update_tracker" in fbody
@@ -131,6 +145,7 @@ def extract(repo):
     lean += f"def maxCommitmentOutputs : Nat := {max_commit_outs}\n"
     lean += f"def channelStubPruneBlocks : Nat := {stub_prune}\n"
     lean += f"def channelStubPruneRegtestExtra : Nat := {stub_regtest_extra}\n"
+    lean += f"def maxChannelsDefault : Nat := {max_channels_default}\n"
     lean += f"def forgetPersistsTracker : Bool := {'true' if forget_persists_tracker else 'false'}\n"
     lean += f"def removeExpectsTipHash : Bool := {'true' if remove_expects_tip_hash else 'false'}\n"
     lean += f"def fundingUndoTolerant : Bool := {'true' if funding_undo_tolerant else 'false'}\n"
@@ -140,7 +155,9 @@ def extract(repo):
              "testnet_20min_gap_s": testnet_gap, "max_target": {k: "0x%x << %d" % v for k, v in tgt.items()},
              "MIN_DEPTH": min_depth, "MAX_CLOSING_DEPTH": max_closing_depth,
              "MAX_COMMITMENT_OUTPUTS": max_commit_outs, "CHANNEL_STUB_PRUNE_BLOCKS": stub_prune,
-             "stub_regtest_extra": stub_regtest_extra, "required_majority": "(n + 1) / 2",
+             "stub_regtest_extra": stub_regtest_extra, "MAX_CHANNELS": max_channels_default,
+             "new_channel_guards": "dbid_high_water_mark >= dbid; channels.len() >= policy.max_channels(); slot lookup",
+             "required_majority": "(n + 1) / 2",
              "is_done_events": [e for e, _ in lims],
              "forget_channel_persists_tracker": forget_persists_tracker,
              "unknown_commitment_close_watches_all_outputs": spendable_fallback,
